@@ -71,6 +71,8 @@ func c06Scenarios(c *vlib.Ctx) []c06Scenario {
 	for _, stg := range []string{"unknown-template", "template-error", "detector-conflict", "undeployable", "staging-failed", "configure-error", "hook-failure"} {
 		out = append(out, c06Scenario{Kind: "create-fail", Stage: stg, Hooks: "none", NTasks: 2, Kill: "killed"})
 	}
+	// the other tasks of a creation that fails at deployment report TASK_RUNNING only after the failure
+	out = append(out, c06Scenario{Kind: "create-fail", Stage: "staging-failed-stragglers", Hooks: "none", NTasks: 3, Kill: "killed"})
 	out = append(out, c06Scenario{Kind: "create-fail", Stage: "configure-error", Hooks: "pending-call", NTasks: 2, Kill: "killed"})
 	out = append(out, c06Scenario{Kind: "create-fail", Stage: "configure-error", Hooks: "tasks", NTasks: 2, Kill: "killed"})
 	// a call started at before_CONFIGURE and awaited at a later weight of the same moment, with the
@@ -168,7 +170,7 @@ func c06Run(c *vlib.Ctx, idx int, sc c06Scenario) {
 		wf.Tasks[0].Host = "host9"
 		wf.Defaults["deploy_timeout"] = "6s"
 	}
-	if sc.Kind == "create-fail" && sc.Stage == "staging-failed" {
+	if sc.Kind == "create-fail" && (sc.Stage == "staging-failed" || sc.Stage == "staging-failed-stragglers") {
 		wf.Defaults["deploy_timeout"] = "6s"
 	}
 	files := wf.Files()
@@ -196,8 +198,10 @@ func c06Run(c *vlib.Ctx, idx int, sc c06Scenario) {
 	armedConfigureError := false
 	s.Master.OnLaunch = func(t *simmesos.LaunchedTask) simmesos.LaunchPlan {
 		plan := simmesos.LaunchPlan{Kind: "running", Delay: 30 * time.Millisecond}
-		if sc.Kind == "create-fail" && sc.Stage == "staging-failed" && strings.HasSuffix(t.RolePath, ".t0") {
+		if sc.Kind == "create-fail" && (sc.Stage == "staging-failed" || sc.Stage == "staging-failed-stragglers") && strings.HasSuffix(t.RolePath, ".t0") {
 			plan.Kind = "failed"
+		} else if sc.Stage == "staging-failed-stragglers" {
+			plan.Delay = 400 * time.Millisecond
 		}
 		return plan
 	}
@@ -297,6 +301,27 @@ func c06Run(c *vlib.Ctx, idx int, sc c06Scenario) {
 		}
 		envID = r.GetEnvironment().GetId()
 		envDetectors = r.GetEnvironment().GetIncludedDetectors()
+		if sc.Hooks == "pending-call" {
+			// the normal situation: the call itself returned long ago and its outcome is parked until
+			// the await moment (a destroy that overtakes the running call is the other, rarer case:
+			// every second scenario of this kind does not wait)
+			if idx%2 == 0 {
+				dl := time.Now().Add(10 * time.Second)
+				done := false
+				for time.Now().Before(dl) && !done {
+					for _, r := range s.PluginRecords() {
+						if r.Tag == "pending" && r.Phase == "end" {
+							done = true
+						}
+					}
+					time.Sleep(20 * time.Millisecond)
+				}
+				time.Sleep(50 * time.Millisecond)
+				if done {
+					c.Count("pending_calls_finished_before_destroy", 1)
+				}
+			}
+		}
 		switch sc.State {
 		case "RUNNING":
 			if control(envID, pb.ControlEnvironmentRequest_START_ACTIVITY) != nil {
@@ -453,6 +478,28 @@ func c06Run(c *vlib.Ctx, idx int, sc c06Scenario) {
 			// the statement only exempts keep-tasks destroys from the must-kill clause; a forced
 			// fallback that kills anyway is recorded, not judged
 			c.Count("killed_despite_keep_tasks", 1)
+		}
+	}
+	// What the environment left unowned falls to the next cleanup: after one cleanup request nothing that
+	// was launched for the vanished environment may be alive without ever having been asked to terminate
+	// (a task the core has forgotten can never be asked).
+	if sc.Kill == "killed" && !sc.KeepTasks && holderID == "" {
+		if sc.Stage == "staging-failed-stragglers" {
+			time.Sleep(600 * time.Millisecond) // the stragglers' TASK_RUNNING
+			waitQuiet(s, 300*time.Millisecond, 5*time.Second)
+		}
+		ctx, cancel := coresim.Ctx(apiTimeout)
+		_, cerr := s.Client.CleanupTasks(ctx, &pb.CleanupTasksRequest{})
+		cancel()
+		obs.Steps = append(obs.Steps, fmt.Sprintf("CleanupTasks err=%q", truncate(grpcMsg(cerr), 200)))
+		waitQuiet(s, 300*time.Millisecond, 10*time.Second)
+		c.Count("final_cleanups", 1)
+		if s.Master.Life() == 1 {
+			for _, t := range s.Master.Tasks() {
+				if !t.Terminal && t.KillAsked == 0 {
+					fail("LEAKED", fmt.Sprintf("task %s (%s, mesos %s) launched for the vanished environment is still alive after a cleanup request and was never asked to terminate", t.RolePath, t.ID, t.Mesos))
+				}
+			}
 		}
 	}
 	// no task the core still knows may name the vanished environment as its owner
